@@ -245,3 +245,151 @@ Definition factorable (daf o : Z) : Prop := exists q, daf <> 0%Z /\ (q * daf)%Z 
 (* ---- layout facts used by the entry_layout statements ---- *)
 Definition all_nop (bs : list byte) : bool := forallb (fun b => b2n b =? 0) bs.
 Definition is_pow2 (n : N) : bool := negb (n =? 0) && (N.land n (n - 1) =? 0).
+
+(* ---- reading back the header of a CIE / FDE (z-augmentation as in the LSB eh_frame chapter) ---- *)
+
+(* two's complement value of a bits-wide pattern *)
+Definition signed_of (bits : N) (v : N) : Z :=
+  if v <? 2 ^ (bits - 1) then Z.of_N v else (Z.of_N v - Z.of_N (2 ^ bits))%Z.
+
+(* the value of a pointer-encoded field; fmt = low four bits of the DW_EH_PE byte *)
+Definition pe_value (be : bool) (asz fmt : N) (bs : list byte) : option (Z * list byte) :=
+  if fmt =? 0 then omap (fixed (N.to_nat asz) be bs) (fun v r => Some (Z.of_N v, r))
+  else if fmt =? 1 then omap (uleb bs) (fun v r => Some (Z.of_N v, r))
+  else if fmt =? 2 then omap (fixed 2 be bs) (fun v r => Some (Z.of_N v, r))
+  else if fmt =? 3 then omap (fixed 4 be bs) (fun v r => Some (Z.of_N v, r))
+  else if fmt =? 4 then omap (fixed 8 be bs) (fun v r => Some (Z.of_N v, r))
+  else if fmt =? 9 then sleb bs
+  else if fmt =? 10 then omap (fixed 2 be bs) (fun v r => Some (signed_of 16 v, r))
+  else if fmt =? 11 then omap (fixed 4 be bs) (fun v r => Some (signed_of 32 v, r))
+  else if fmt =? 12 then omap (fixed 8 be bs) (fun v r => Some (signed_of 64 v, r))
+  else None.
+
+(* an encoded pointer found at section offset pos (section loaded at address 0): absolute or pc-relative,
+   reduced to the address size; the indirect bit does not change the stored value *)
+Definition pe_pointer (be : bool) (asz enc pos : N) (bs : list byte) : option (N * list byte) :=
+  omap (pe_value be asz (N.land enc 15) bs) (fun v r =>
+    let m := Z.of_N (2 ^ (8 * asz)) in
+    let app := N.land enc 112 in
+    if app =? 0 then Some (Z.to_N (v mod m), r)
+    else if app =? 16 then Some (Z.to_N ((Z.of_N pos + v) mod m), r)
+    else None).
+
+(* NUL-terminated string *)
+Fixpoint cstr (bs : list byte) : option (list byte * list byte) :=
+  match bs with
+  | [] => None
+  | b :: r => if b2n b =? 0 then Some ([], r)
+              else match cstr r with Some (s, t) => Some (b :: s, t) | None => None end
+  end.
+
+Definition consumed (before after : list byte) : N := N.of_nat (length before) - N.of_nat (length after).
+
+(* the header fields of a CIE as a reader sees them *)
+Record cie_fields : Type := mkFields {
+  cf_version : N;
+  cf_aug : list byte;                  (* augmentation string without the NUL *)
+  cf_asize : option N;                 (* address_size field (version 4) *)
+  cf_caf : N;
+  cf_daf : Z;
+  cf_ra : N;
+  cf_lsda_enc : option N;              (* 'L' *)
+  cf_pers : option (N * N);            (* 'P': encoding, pointer reduced to the address size *)
+  cf_fde_enc : option N;               (* 'R' *)
+  cf_sig : bool                        (* 'S' *)
+}.
+
+(* the characters after 'z' against the augmentation data; pos = section offset of the first data byte *)
+Fixpoint aug_walk (be : bool) (asz : N) (chars data : list byte) (pos : N)
+         (l : option N) (p : option (N * N)) (r : option N) (s : bool)
+  : option (option N * option (N * N) * option N * bool) :=
+  match chars with
+  | [] => Some (l, p, r, s)
+  | ch :: cs =>
+      if b2n ch =? 76 then                                       (* 'L' *)
+        match data with
+        | e :: d => aug_walk be asz cs d (pos + 1) (Some (b2n e)) p r s
+        | [] => None
+        end
+      else if b2n ch =? 80 then                                  (* 'P' *)
+        match data with
+        | e :: d =>
+            match pe_pointer be asz (b2n e) (pos + 1) d with
+            | Some (v, d') => aug_walk be asz cs d' (pos + 1 + consumed d d') l (Some (b2n e, v)) r s
+            | None => None
+            end
+        | [] => None
+        end
+      else if b2n ch =? 82 then                                  (* 'R' *)
+        match data with
+        | e :: d => aug_walk be asz cs d (pos + 1) l p (Some (b2n e)) s
+        | [] => None
+        end
+      else if b2n ch =? 83 then aug_walk be asz cs data pos l p r true   (* 'S' *)
+      else None
+  end.
+
+(* body = the entry after its initial length, found at section offset pos; asz0 = the address size of the
+   section (used unless the CIE carries its own, version 4); returns the fields and the instruction area *)
+Definition parse_cie_body (be eh fmt64 : bool) (asz0 pos : N) (body : list byte)
+  : option (cie_fields * list byte) :=
+  omap (fixed (if eh then 4 else if fmt64 then 8 else 4) be body) (fun id r0 =>
+  if negb (id =? (if eh then 0 else if fmt64 then 18446744073709551615 else 4294967295)) then None else
+  omap (fixed 1 be r0) (fun ver r1 =>
+  omap (cstr r1) (fun aug r2 =>
+  omap (if ver =? 4 then omap (fixed 1 be r2) (fun a r => omap (fixed 1 be r) (fun seg r' =>
+                            if seg =? 0 then Some (Some a, r') else None))
+        else Some (None, r2)) (fun oasz r3 =>
+  let asz := match oasz with Some a => a | None => asz0 end in
+  omap (uleb r3) (fun caf r4 =>
+  omap (sleb r4) (fun daf r5 =>
+  omap (if ver =? 1 then fixed 1 be r5 else uleb r5) (fun ra r6 =>
+  match aug with
+  | [] => Some (mkFields ver aug oasz caf daf ra None None None false, r6)
+  | z :: chars =>
+      if negb (b2n z =? 122) then None else
+      omap (uleb r6) (fun alen r7 =>
+      if N.of_nat (length r7) <? alen then None else
+      let data := firstn (N.to_nat alen) r7 in
+      let area := skipn (N.to_nat alen) r7 in
+      match aug_walk be asz chars data (pos + consumed body r7) None None None false with
+      | Some (l, p, r, s) => Some (mkFields ver aug oasz caf daf ra l p r s, area)
+      | None => None
+      end)
+  end))))))).
+
+
+(* the header fields of an FDE; what is needed from its CIE: address size, 'R' and 'L' encodings, and
+   whether the CIE has an augmentation string *)
+Record fde_fields : Type := mkFdeFields {
+  ff_cie : N;                          (* section offset of the CIE the entry points to *)
+  ff_addr : N;                         (* initial address, reduced to the address size *)
+  ff_len : N;                          (* address range *)
+  ff_lsda : option N
+}.
+
+Definition parse_fde_body (be eh fmt64 : bool) (asz : N) (fenc lsda_enc : option N) (has_aug : bool)
+           (pos : N) (body : list byte) : option (fde_fields * list byte) :=
+  omap (fixed (if eh then 4 else if fmt64 then 8 else 4) be body) (fun ptr r0 =>
+  let cie_off := if eh then pos - ptr else ptr in
+  omap (match fenc with
+        | Some e =>
+            omap (pe_pointer be asz e (pos + consumed body r0) r0) (fun a r =>
+            omap (pe_value be asz (N.land e 15) r) (fun l r' =>
+              Some ((a, Z.to_N (l mod 18446744073709551616)), r')))
+        | None =>
+            omap (fixed (N.to_nat asz) be r0) (fun a r =>
+            omap (fixed (N.to_nat asz) be r) (fun l r' => Some ((a, l), r')))
+        end) (fun al r1 =>
+  if has_aug then
+    omap (uleb r1) (fun alen r2 =>
+    if N.of_nat (length r2) <? alen then None else
+    let data := firstn (N.to_nat alen) r2 in
+    let area := skipn (N.to_nat alen) r2 in
+    match lsda_enc with
+    | Some e =>
+        omap (pe_pointer be asz e (pos + consumed body r2) data) (fun v _ =>
+          Some (mkFdeFields cie_off (fst al) (snd al) (Some v), area))
+    | None => Some (mkFdeFields cie_off (fst al) (snd al) None, area)
+    end)
+  else Some (mkFdeFields cie_off (fst al) (snd al) None, r1))).
